@@ -35,7 +35,15 @@ def parse_obs(line):
     return ticks.strip(), obs
 
 
+# entries that look like the file's own syntax: the header, escapes, lone backslashes
+LOOKALIKES = [[0x23, 0x56, 0x32], [0x23, 0x56, 0x32, 0x20], [0x20, 0x23, 0x56, 0x32], [0x23, 0x56, 0x32, 0x0d],
+              [0x5c, 0x6e], [0x5c, 0x72], [0x5c, 0x5c], [0x5c], [0x5c, 0x0a], [0x0d], [0x0a], [0x0d, 0x0a],
+              [0x61, 0x5c], [0x5c, 0xe9], [0x23, 0x56, 0x32, 0x0a, 0x61]]
+
+
 def rand_entry(rng, alpha, maxlen):
+    if rng.random() < 0.12:
+        return list(rng.choice(LOOKALIKES))
     n = rng.choice([1, 1, 2, 2, 3, 3, 4, maxlen])
     return [rng.choice(alpha) for _ in range(rng.randint(1, max(1, n)))]
 
@@ -110,7 +118,7 @@ def c10_cases(tier, seed):
         for _ in range(rng.randint(0, 6)):
             l = [c for c in rand_entry(rng, ALPHA10, 6) if c not in (0x0a,)]
             lines.append(l)
-        if lines and lines[0] == [0x23, 0x56, 0x32]:
+        if lines and lines[0] in ([0x23, 0x56, 0x32], [0x23, 0x56, 0x32, 0x0d]):  # that would be a V2 file
             lines[0] = [0x61]
         data = []
         for i, l in enumerate(lines):
@@ -247,10 +255,14 @@ def c12_corr(res, exe, driver, tier, seed, tmp):
             kinds[kind] = kinds.get(kind, 0) + 1
     # arbitrary / foreign bytes
     nrand = 6000 if tier == "thorough" else 1200
-    pool = [0x0a, 0x0a, 0x0d, 0x5c, 0x5c, 0x6e, 0x72, 0x23, 0x56, 0x32, 0x61, 0x20, 0xc3, 0xa9, 0xe6, 0x97, 0xa5,
-            0xf0, 0x9f, 0x98, 0x80, 0xff, 0xc0, 0x80, 0xed, 0xa0, 0x00]
+    good = [[0x0a], [0x0a], [0x0d], [0x5c], [0x5c], [0x6e], [0x72], [0x23, 0x56, 0x32], [0x61], [0x20],
+            [0xc3, 0xa9], [0xe6, 0x97, 0xa5], [0xf0, 0x9f, 0x98, 0x80], [0x00], [0x0d, 0x0a]]
+    bad = [[0xff], [0xc0, 0x80], [0xed, 0xa0, 0x80], [0xc3], [0xe6, 0x97], [0x80], [0xf4, 0x90, 0x80, 0x80]]
     for _ in range(nrand):
-        b = [rng.choice(pool) for _ in range(rng.randint(0, 24))]
+        toks = [rng.choice(good) for _ in range(rng.randint(0, 16))]
+        if rng.random() < 0.3 and toks:
+            toks.insert(rng.randrange(len(toks) + 1), rng.choice(bad))
+        b = [x for t in toks for x in t]
         if rng.random() < 0.6:
             b = [0x23, 0x56, 0x32, 0x0a] + b
         cfg = cfg_tok(rng)
@@ -315,3 +327,160 @@ def c12_corr(res, exe, driver, tier, seed, tmp):
                 "Non-trivial = a strict prefix of the file (cut) / contains a backslash or a non-ASCII byte (bytes).")
     res.distribution = {"kinds": kinds}
     res.samples = [{"case": c[0], "impl": r} for c, r in list(zip(cases, impl))[:: max(1, len(cases) // 4)]][:4]
+
+
+# ------------------------------------------------------------------ C11
+
+def file_entries_py(data):
+    """Independent reader of the V2 format: the file's entries, raw (no add filtering)."""
+    b = bytes(data)
+    parts = b.split(b"\n")
+    if parts and parts[-1] == b"":
+        parts.pop()
+    if not parts or parts[0] != b"#V2":
+        return None
+    out = []
+    for p in parts[1:]:
+        l = [ord(c) for c in p.decode("utf-8")]
+        if not l:
+            continue
+        u = unescape_py(l)
+        out.append(l if u is None else u)
+    return out
+
+
+def dedup(l):
+    out = []
+    for x in l:
+        if not out or out[-1] != x:
+            out.append(x)
+    return out
+
+
+def is_subseq(a, b):
+    it = iter(b)
+    return all(any(x == y for y in it) for x in a)
+
+
+def c11_cases(tier, seed):
+    rng = random.Random(seed * 101 + 7)
+    n = 6000 if tier == "thorough" else 800
+    cases = []
+    words = [[0x61], [0x62], [0x63], [0x61, 0x0a, 0x62], [0xe9], [0x20, 0x78], [0x5c, 0x6e], [0x64, 0x0d]]
+    for _ in range(n):
+        mx = rng.choice([1, 2, 3, 4, 4, 6, 10])
+        igs, igd = int(rng.random() < 0.3), int(rng.random() < 0.5)
+        cfg = "%d %d %d" % (mx, igs, igd)
+        nsess = rng.choice([2, 2, 3])
+        uniq = rng.random() < 0.5
+        cnt = [0]
+
+        def line(i):
+            if uniq:
+                cnt[0] += 1
+                return [0x73, 0x30 + i, 0x2d] + [ord(ch) for ch in str(cnt[0])]
+            return list(rng.choice(words))
+        ops = ["new 9 " + cfg]
+        init = rng.randint(1, min(mx, 3))
+        ops += ["add 9 " + enc([0x69, 0x30 + k]) for k in range(init)] + ["save 9"]   # the file exists from the start
+        started = set()
+        for _ in range(rng.randint(4, 22 if tier == "thorough" else 16)):
+            i = rng.randrange(nsess)
+            if i not in started:
+                started.add(i)
+                ops += ["new %d %s" % (i, cfg), "load %d" % i]
+                continue
+            r = rng.random()
+            if r < 0.55:
+                ops.append("add %d %s" % (i, enc(line(i))))
+            elif r < 0.92:
+                ops.append("append %d" % i)
+            else:
+                ops.append("save %d" % i)
+        ops += ["new 8 100 0 0", "load 8"]
+        cases.append((" ; ".join(ops), {"max": mx, "igs": igs, "igd": igd}))
+    return cases
+
+
+def c11_oracle(case, meta, ticks, obs):
+    ops = [o.strip().split() for o in case.split(";")]
+    mx, igd = meta["max"], meta["igd"]
+    pending = {}
+    prev_file = None
+    all_ticks = True
+    for t, tick, (r, ents, fil) in zip(ops, ticks, obs):
+        if r == "panic":
+            return "panic at %s" % " ".join(t)
+        fe = file_entries_py(fil) if fil is not None else None
+        if fil is not None and fe is None:
+            return "file is not a V2 history file after %s" % " ".join(t)
+        name = t[0]
+        if name in ("save", "append") and fil != prev_file_bytes(prev_file) and tick != "1":
+            all_ticks = False
+        if name == "new":
+            pending[int(t[1])] = []
+        elif name == "load":
+            if r != "ok":
+                return "load failed: %s" % r
+            pending[int(t[1])] = []
+        elif name == "add":
+            if r == "true":
+                pending[int(t[1])].append(dec(t[2]))
+        elif name == "save":
+            i = int(t[1])
+            if r != "ok":
+                return "save failed"
+            pending[i] = []
+        elif name == "append":
+            i = int(t[1])
+            if r != "ok":
+                return "append failed: %s" % r
+            N = pending[i]
+            before = prev_file[1] if prev_file else []
+            after = fe if fe is not None else []
+            if not N:
+                if fil != (prev_file[0] if prev_file else None):
+                    return "append with nothing pending changed the file"
+            else:
+                cand = before + N
+                D = dedup if igd else (lambda x: x)
+                da, dc = D(after), D(cand)
+                if not (len(da) <= len(dc) and dc[len(dc) - len(da):] == da):
+                    return ("after append by session %d the file %r is not (a suffix of) what it held %r followed by the "
+                            "session's new lines %r" % (i, after, before, N))
+                if len(cand) <= mx and da != dc:
+                    return ("append by session %d lost entries although the limit %d is not exceeded: before %r + new %r, "
+                            "after %r" % (i, mx, before, N, after))
+                if not is_subseq(after, cand):
+                    return "after append the file %r is not a sub-sequence of %r" % (after, cand)
+            pending[i] = []
+        if fe is not None and all_ticks and len(fe) > mx and name in ("save", "append"):
+            return "file holds %d entries, limit %d, although every write had a distinguishable mtime" % (len(fe), mx)
+        prev_file = (fil, fe) if fil is not None else None
+    return None
+
+
+def prev_file_bytes(pf):
+    return pf[0] if pf else None
+
+
+def c11_corr(res, exe, driver, tier, seed, tmp):
+    cases = c11_cases(tier, seed)
+    impl, parsed = run_fhist(res, exe, driver, [c[0] for c in cases], tmp, tag="fhist-share")
+    paths = {"ticks0": 0, "appends": 0}
+    for (case, meta), raw, (ticks, obs) in zip(cases, impl, parsed):
+        why = c11_oracle(case, meta, ticks, obs)
+        if why:
+            res.oracle_failures.append({"stream": "fhist-share", "case": case, "impl": raw, "why": why})
+        na = case.count("append")
+        paths["appends"] += na
+        paths["ticks0"] += ticks.count("0")
+        if na >= 2 and case.count("load") >= 3:
+            res.nontrivial.add(case)
+    res.rule = ("random interleavings at operation granularity of 2-3 FileHistory sessions (one process) on one temp file that "
+                "exists from the start: each session loads when it starts, then add / append / save in random order; shared "
+                "settings, limits 1..10, lines either unique per session or from a small pool with duplicates, LF, CR, "
+                "backslash, leading blank; the observed 'mtime changed' bit of every op is fed to the model. The oracle reads "
+                "the file with its own V2 reader after every op. Non-trivial = at least two appends and two concurrent sessions.")
+    res.distribution = paths
+    res.samples = [{"case": c[0], "impl": r} for c, r in list(zip(cases, impl))[:3]]
